@@ -442,6 +442,11 @@ class AccessMixin(object):
         f = z3.Function('str_of', I, I)
         t = coerce(a, ANY) if isinstance(a, V) and a.ty.is_reflike else (a.t if isinstance(a, V) and a.ty.k == 'int' else None)
         yield st, (V(STR, f(t)) if t is not None else self.fresh_val(st, STR, 'str'))
+    elif name == 'sum' and len(args) == 1 and isinstance(args[0], V) and args[0].ty.k == 'list':
+      # the sum of a list of numbers: an uninterpreted function of the list (its meaning is given
+      # pointwise by the obligations that relate each summand to what is written for it)
+      f = z3.Function('sum_list', I, I)
+      yield st, V(INT, f(args[0].t), py=('sum', args[0]))
     elif name == 'hash':
       yield st, V(INT, self.py_hash(st, cx, args[0]))
     elif name == 'isinstance':
